@@ -10,7 +10,11 @@ the handler for it, the handler being entered, the worker thread ending.
   (SET_VRING_ENABLE 0, GET_VRING_BASE, RESET_DEVICE) has been sent, the backend's event handler is not entered
   for that ring until it is enabled or started again".  Resolved conservatively: the forbidden period of a
   disable/reset ends as soon as the daemon *begins* to handle a SET_VRING_ENABLE(1), that of a stop as soon as it
-  begins to handle the SET_VRING_KICK that restarts the ring.
+  begins to handle the SET_VRING_KICK that restarts the ring.  Only a SET_VRING_KICK that *carries a descriptor*
+  restarts a ring: "client must start ring upon receiving a kick … on the descriptor specified by
+  VHOST_USER_SET_VRING_KICK" — a SET_VRING_KICK with the no-descriptor flag (payload bit 8) specifies none, so it
+  neither starts nor stops the ring (the same decision as D3 of `Spec.RingAutomaton`): the forbidden period opened by
+  the reply of a GET_VRING_BASE stays open across such a message (`CMsg.nofd`, `period_nofd`).
 * **P2 (`NoLostWakeup`)** — "every kick raised on a ring is eventually followed by an event-handler invocation
   … i.e. no wake-up is consumed without being processed": no wake-up is consumed by a read that does not lead to
   the handler, and the worker does not end while the daemon runs (a worker that is gone processes no later kick).
@@ -28,11 +32,18 @@ inductive CMsg where
   | stop         -- GET_VRING_BASE
   | restart      -- SET_VRING_KICK with a fresh descriptor
   | reset        -- RESET_DEVICE
+  | nofd         -- SET_VRING_KICK with the no-descriptor flag: neither enables nor restarts (nor disables, nor stops)
 deriving DecidableEq, Repr
 
 def CMsg.disables : CMsg → Bool
   | .disable => true
   | .reset => true
+  | _ => false
+
+/-- the messages that end a forbidden period when the daemon begins to handle them -/
+def CMsg.activates : CMsg → Bool
+  | .enable => true
+  | .restart => true
   | _ => false
 
 inductive Ev where
@@ -60,6 +71,18 @@ def period (tr : List Ev) : Period := tr.foldl Period.next ⟨false, false⟩
 
 theorem period_append (tr : List Ev) (e : Ev) : period (tr ++ [e]) = (period tr).next e := by
   simp [period, List.foldl_append]
+
+/-- a descriptor-less SET_VRING_KICK opens and closes nothing -/
+theorem period_nofd (p : Period) : p.next (.start .nofd) = p ∧ p.next (.reply .nofd) = p := by
+  constructor <;> simp [Period.next, CMsg.disables]
+
+/-- only the begin of an activating message closes a period -/
+theorem period_next_closes (p : Period) (e : Ev) (h : ∀ m, e = .start m → m.activates = false) :
+    (p.forbD = true → (p.next e).forbD = true) ∧ (p.forbS = true → (p.next e).forbS = true) := by
+  cases e with
+  | start m => cases m <;> simp_all [Period.next, CMsg.activates]
+  | reply m => cases m <;> simp [Period.next, CMsg.disables]
+  | _ => simp [Period.next]
 
 /-- P1 -/
 def NoDispatchAfterReply (tr : List Ev) : Prop :=
